@@ -25,18 +25,14 @@ def ztrue_edges(f, T):
     cfg = f.cfg
 
     def ok(lab, p, q):
-        fa = cfg.fact(lab)
-        if fa is None:
-            return True
-        d = rl.var_of(f, fa[0])
-        return not (d in ds and fa[1] is False)
+        return not any(rl.var_of(f, e) in ds and pol is False for e, pol in cfg.facts(lab))
     return ok
 
 
 def null_edge(f, d):
     """edge establishes that local d is NULL"""
     cfg = f.cfg
-    return lambda lab: cfg.fact(lab) is not None and rl.fact_null(f, cfg.fact(lab)[0], cfg.fact(lab)[1], rl.is_var(f, d))
+    return lambda lab: any(rl.fact_null(f, e, pol, rl.is_var(f, d)) for e, pol in cfg.facts(lab))
 
 
 class ZeroFlow:
@@ -171,8 +167,7 @@ def r1(ctx, prog):
             ln = f.nodes[e]["args"][-1]
             return f.mentions_field(ln, "block_size") and not f.mentions_decl(ln, f.param_id(2))
         def not_fiz(lab, p, q):
-            fa = cfg.fact(lab)
-            return not (fa is not None and fa[1] and rl.field_is(f, fa[0], "free_is_zero"))
+            return not any(pol and rl.field_is(f, e, "free_is_zero") for e, pol in cfg.facts(lab))
         w = cfg.must_pass(starts, cfg.exit_points(), full_zero, edge_ok=not_fiz)
         ctx.check(R, w is None, f.where(), "zero edge: memzero over page->block_size (minus padding) on every path unless page->free_is_zero", key="C04.R1:full", witness=w)
         # free_is_zero edge clears the link word
